@@ -45,6 +45,7 @@ SVC = {
     "s3": (0x2222, 1, 2, 5),
     "s4": (0x3333, 7, 3, 0),
     "w3": (0x3333, ANY16, ANY8, ANY32),     # an instance configured with wildcard ids
+    "s5": (0x1111, 1, 2, 0),                # same service and instance id as s1, next major version (served side by side)
 }
 RSVC = {v: k for k, v in SVC.items()}
 
@@ -144,6 +145,7 @@ FIND = {
     "f1x": (0x1111, 1, 1, 0),
     "f1m": (0x1111, 1, 1, 9),
     "f1i": (0x1111, 2, ANY8, ANY32),
+    "f1v": (0x1111, 1, ANY8, ANY32),        # any version of instance 1: s1 and s5
     "f3": (0x2222, ANY16, 2, ANY32),
     "f4": (0x3333, ANY16, ANY8, ANY32),
     "f4x": (0x3333, 7, 3, 0),
